@@ -707,10 +707,13 @@ Definition err_allowed (f : comp_filter) (c : comp) : bool :=
   negb (times_ok f c)
   || existsb (fun tc => negb (is_event (snd tc)) && other_time_unreadable (snd tc)) (tr_pairs f c).
 
-(** The relaxed verdict on an observation of Match (what the oracle applies). *)
+(** The relaxed verdict on an observation of Match (what the oracle applies).
+    An object without a component tree is outside the statement's domain ("every
+    calendar object"): the panic of the present code and an error are both
+    acceptable there, a verdict is not. *)
 Definition match_spec_ok (f : comp_filter) (o : cobj) (ob : mobs) : bool :=
   match o_data o with
-  | None => match ob with MPanic => true | _ => false end
+  | None => match ob with MPanic | MErr => true | MOk _ => false end
   | Some c =>
     if rset_ok f c
     then match ob with
@@ -741,6 +744,8 @@ Fixpoint sel_ok (f : comp_filter) (os : list cobj) (tags : list N) : bool :=
     end
   end.
 
+(** With a query, a list that holds an object without data is outside the statement's
+    domain: a panic (the present code) or an error, but no silent answer. *)
 Definition filter_spec_ok (q : option comp_filter) (os : list cobj) (ob : fobs) : bool :=
   match q with
   | None =>
@@ -748,8 +753,8 @@ Definition filter_spec_ok (q : option comp_filter) (os : list cobj) (ob : fobs) 
   | Some f =>
     if forallb (obj_rset_ok f) os
     then match ob with
-         | FOk tags unmod => sel_ok f os tags && unmod
-         | FErr => existsb (obj_err_allowed f) os
+         | FOk tags unmod => negb (existsb obj_nil os) && sel_ok f os tags && unmod
+         | FErr => existsb (obj_err_allowed f) os || existsb obj_nil os
          | FPanic => existsb obj_nil os
          end
     else filter_agrees q os ob
